@@ -28,7 +28,21 @@ class Disc1D:
         self.mesh_cls = proj.cls("mesh.mesh1d")
         self.fvm_cls = proj.cls("modeldisc.fvm1d")
         self.Len = A.sym("Len", positive=True)
-        self.mesh = SelfObj(self.mesh_cls, {"ncell": N, "xf": self.stn.input("xf", N + 1), "xc": self.stn.input("xc", N), "length": self.Len})
+        # the mesh object is built by interpreting mesh1d.__init__ (so that every attribute the
+        # constructor creates exists), then faces / centres are renamed to the free inputs xf, xc
+        from .meshes import MeshBuild
+        mb = MeshBuild(proj, "mesh1d", host=self)
+        self.mesh = mb.obj
+        ver = {nm for nm, _ in mb.versions}
+
+        def ren(name, kind, idx):
+            if name in ver:
+                return self.stn.rel("xf", idx) if kind == "rel" else self.stn.absol("xf", idx)
+            return None
+        for k, v in list(self.mesh.attrs.items()):
+            if isinstance(v, SArr):
+                self.mesh.attrs[k] = SArr(v.length, [(l, h, self.subst_names(x, ren)) for l, h, x in v.segs])
+        self.mesh.attrs.update({"ncell": N, "xf": self.stn.input("xf", N + 1), "xc": self.stn.input("xc", N), "length": self.Len})
         bc = {"type": "per"} if periodic else {"type": "dirichlet"}
         names = ["d"] if neq == 1 else ["d%d" % i for i in range(neq)]
         self.dnames = names
